@@ -525,6 +525,30 @@ bool struct_in_memory(Type *ty) {
   return ty->size > 16 || has_memory_class(ty, 0);
 }
 
+// Returns true if every scalar of a 16-byte struct or union is a long
+// double at offset 0 (psABI classes X87, X87UP).
+static bool is_x87_struct(Type *ty) {
+  if (ty->kind == TY_STRUCT || ty->kind == TY_UNION) {
+    if (!ty->members)
+      return false;
+    for (Member *mem = ty->members; mem; mem = mem->next)
+      if (mem->offset != 0 || !is_x87_struct(mem->ty))
+        return false;
+    return true;
+  }
+
+  if (ty->kind == TY_ARRAY)
+    return ty->array_len == 1 && is_x87_struct(ty->base);
+  return ty->kind == TY_LDOUBLE;
+}
+
+// Returns true if a struct or union is returned in a buffer provided
+// by the caller. A struct that is just a long double is passed in
+// memory but returned in st(0).
+bool struct_ret_in_memory(Type *ty) {
+  return struct_in_memory(ty) && !is_x87_struct(ty);
+}
+
 // Register class of a struct or union for va_arg: 2 if it is passed
 // in memory; otherwise 3 + the classes of its eightbytes, where an
 // eightbyte counts 0 for INTEGER and 1 for SSE: 3, 4 for one
@@ -634,7 +658,7 @@ static int push_args(Node *node) {
 
   // If the return type is a large struct/union, the caller passes
   // a pointer to a buffer as if it were the first argument.
-  if (node->ret_buffer && struct_in_memory(node->ty))
+  if (node->ret_buffer && struct_ret_in_memory(node->ty))
     gp++;
 
   // Load as many arguments to the registers as possible.
@@ -686,7 +710,7 @@ static int push_args(Node *node) {
 
   // If the return type is a large struct/union, the caller passes
   // a pointer to a buffer as if it were the first argument.
-  if (node->ret_buffer && struct_in_memory(node->ty)) {
+  if (node->ret_buffer && struct_ret_in_memory(node->ty)) {
     println("  lea %d(%%rbp), %%rax", node->ret_buffer->offset);
     push();
   }
@@ -697,6 +721,11 @@ static int push_args(Node *node) {
 static void copy_ret_buffer(Obj *var) {
   Type *ty = var->ty;
   int gp = 0, fp = 0;
+
+  if (is_x87_struct(ty)) {
+    println("  fstpt %d(%%rbp)", var->offset);
+    return;
+  }
 
   if (has_flonum1(ty)) {
     assert(ty->size == 4 || 8 <= ty->size);
@@ -734,6 +763,11 @@ static void copy_ret_buffer(Obj *var) {
 static void copy_struct_reg(void) {
   Type *ty = current_fn->ty->return_ty;
   int gp = 0, fp = 0;
+
+  if (is_x87_struct(ty)) {
+    println("  fldt (%%rax)");
+    return;
+  }
 
   println("  mov %%rax, %%rdi");
 
@@ -1043,7 +1077,7 @@ static void gen_expr(Node *node) {
 
     // If the return type is a large struct/union, the caller passes
     // a pointer to a buffer as if it were the first argument.
-    if (node->ret_buffer && struct_in_memory(node->ty))
+    if (node->ret_buffer && struct_ret_in_memory(node->ty))
       pop(argreg64[gp++]);
 
     for (Node *arg = node->args; arg; arg = arg->next) {
@@ -1110,7 +1144,7 @@ static void gen_expr(Node *node) {
 
     // If the return type is a small struct, a value is returned
     // using up to two registers.
-    if (node->ret_buffer && !struct_in_memory(node->ty)) {
+    if (node->ret_buffer && !struct_ret_in_memory(node->ty)) {
       copy_ret_buffer(node->ret_buffer);
       println("  lea %d(%%rbp), %%rax", node->ret_buffer->offset);
     }
@@ -1491,7 +1525,7 @@ static void gen_stmt(Node *node) {
       switch (ty->kind) {
       case TY_STRUCT:
       case TY_UNION:
-        if (!struct_in_memory(ty))
+        if (!struct_ret_in_memory(ty))
           copy_struct_reg();
         else
           copy_struct_mem();
